@@ -119,8 +119,11 @@ def check_fit(case, ctx):
                             # F30: each eps = 0 crossing adds or subtracts
                             # pi/2; two crossings return to pa_i up to the
                             # rounding of (pa + pi/2) - pi/2
+                            # (... or, starting from pi, at 0: a net
+                            # rotation of pi)
                             rotated_by_90deg=bool(
                                 abs(abs(s.pa - pa_i) - math.pi / 2) < 1e-9
+                                or abs(abs(s.pa - pa_i) - math.pi) < 1e-9
                                 or abs(s.pa - pa_i) < 1e-12))
         if kw.get('fix_eps') and s.eps != eps_i:
             raise Violation('fixed_eps_changed', f'sma {s.sma}: eps {s.eps} != {eps_i}')
